@@ -236,6 +236,50 @@ func cmdC06(seed uint64, tier, outdir string) {
 			}
 			emit("hyphen-split", in.name, data, v, cls, nt)
 		}
+		// (H') hyphen splits positioned at the read-buffer boundaries (multiples of 1020 bytes)
+		if len(in.data) > 2300 {
+			for _, boundary := range []int{1020, 2040} {
+				for delta := -6; delta <= 6; delta += 3 {
+					pos := boundary + delta
+					// find a letter-only word containing byte offset pos, not first/last on its line
+					s := string(in.data)
+					a, b := pos, pos
+					for a > 0 && s[a-1] != ' ' && s[a-1] != '\n' {
+						a--
+					}
+					for b < len(s) && s[b] != ' ' && s[b] != '\n' {
+						b++
+					}
+					w := s[a:b]
+					if b-a < 4 || lettersLower(w) != strings.ToLower(w) || a == 0 || s[a-1] != ' ' || b >= len(s) || s[b] != ' ' {
+						continue
+					}
+					li := strings.Count(s[:a], "\n")
+					if li < len(ex) && ex[li] {
+						continue
+					}
+					rest := s[b+1:]
+					if f := strings.Fields(rest); len(f) > 0 && looksLikeHeader(f[0]) {
+						continue
+					}
+					cut := pos - a
+					if cut < 1 || cut > len(w)-1 {
+						cut = len(w) / 2
+					}
+					data := []byte(s[:a] + w[:cut] + "-\n  " + w[cut:] + s[b:])
+					got := bc.c.Match(data)
+					v := sameLicenses(ref, got, false, identityLine)
+					cls := ""
+					if v != "" {
+						lt, lm := classifier.VerifTokenize([]byte(lines[li]+"\n"), true)
+						if len(lt) == 0 && len(lm) == 1 {
+							cls = "hyphen-split-inside-notice-line"
+						}
+					}
+					emit("hyphen-split-at-buffer-boundary", in.name, data, v, cls, nt)
+				}
+			}
+		}
 		// (S) interchangeable spellings, (U) http/https
 		{
 			out := append([]string{}, lines...)
